@@ -202,6 +202,7 @@ def run_iter(case, idx):
         res["cache_on"] = bool(it._cached)
         rows = []
         cur_size = 0
+        last_ln = None
         for op in case["ops"]:
             code, y = -1, -1
             try:
@@ -245,7 +246,9 @@ def run_iter(case, idx):
             except Exception as e:  # noqa: BLE001
                 code = 20
                 res.setdefault("odd", repr(e)[:200])
-            ln = it.loop_no if it is not None else None
+            if it is not None:
+                last_ln = it.loop_no
+            ln = last_ln  # after a drop: the last value seen (the object is gone)
             rows.append([code, y, image.tell(), -99 if ln is None else ln, int(it is not None)])
         res["rows"] = rows
         res["size_kept"] = image.size == size_setting
